@@ -159,13 +159,16 @@ func VerifH01c() {
 	steps := []int64{11, 23}[sym.Choice("steps", sym.Tier(1, 2))]
 	end := start + (steps-1)*step + sym.Int64("endSlack", 0, 19999) // end need not be on the grid
 	data := verifAlignData(d, 16)
-	sym.SetGOMAXPROCS(2 * sym.IntRange("shards", 1, sym.Tier(1, 2)))
+	if sym.Param("H01c.reverse", 0) == 1 { // the storage returns the series in the reverse order
+		data = []*stub.Series{data[2], data[1], data[0]}
+	}
+	sym.SetGOMAXPROCS(2 * sym.IntRange("shards", 1, sym.Tier(sym.Param("H01c.shards", 1), 2)))
 	e := verifEngine(logicalplan.DefaultOptimizers, lookback)
 	o := promql.EngineOpts{MaxSamples: 1000000, Timeout: 3600000000000, EnableAtModifier: true, EnableNegativeOffset: true}
 	o.LookbackDelta = sym.DurMs(lookback)
 	ref := promql.NewEngine(o)
-	got := verifExecRange(e, &stub.Queryable{Ser: data}, qs, start, end, step)
-	rq, err := ref.NewRangeQuery(&stub.Queryable{Ser: data}, nil, qs, sym.TimeMs(start), sym.TimeMs(end), sym.DurMs(step))
+	got := verifExecRange(e, &stub.Queryable{Ser: data, HonourHints: true}, qs, start, end, step)
+	rq, err := ref.NewRangeQuery(&stub.Queryable{Ser: data, HonourHints: true}, nil, qs, sym.TimeMs(start), sym.TimeMs(end), sym.DurMs(step))
 	sym.Assert("C01/align/ref-created", err == nil)
 	want := rq.Exec(context.Background())
 	verifSameResult("C01/align/native-equals-reference:"+qs, got, want)
